@@ -957,6 +957,8 @@ func runC17(c *Ctx) {
 				}
 			}
 		}
+		// prefix stability against the decoder's refill boundaries (align.go)
+		r.alignSweep()
 		// every cut point
 		cuts := 0
 		for i := 0; i < ncut && i < len(streams); i++ {
